@@ -1,6 +1,6 @@
 Require Extraction.
 Require Import ExtrOcamlBasic.
-From CSL Require Import Base.Prelude Cbor.Head Cbor.Item Batch.BatchSpec Batch.Calc Batch.Proposal Batch.PureAda.
+From CSL Require Import Base.Prelude Cbor.Head Cbor.Item Batch.BatchSpec Batch.Calc Batch.Proposal Batch.PureAda Batch.AssetPath.
 Extraction Language OCaml.
 Definition keepN : N := N.add 0 0.
 Definition keepZ : Z := Z.add 0 0.
@@ -8,4 +8,4 @@ Definition keepNat : nat := length (@nil N).
 Extraction "model_c13.ml" keepN keepZ keepNat
   judge utxos_distinct read_tx tx_summary mkUtxo mkConfig
   get_struct_size mkCtx mkUinfo mkAinfo tp_new add_new_output step set_min_ada_for_tx add_last_ada_to_last_output
-  check_finished create_tx real_tx_size real_out_size real_value_size finalise bound_of insertN pure_send_all no_assets.
+  check_finished create_tx real_tx_size real_out_size real_value_size finalise bound_of insertN pure_send_all no_assets full_send_all create_send_all_model new_ok.
